@@ -64,6 +64,7 @@ def jobs(tier, seed, pool):
             if sh['nv'] > 300:
                 sh.update({'nv': 12, 'nt': 10})
             init = {'builder': {'version': ver, 'salt': r.below(1 << 30), 'nodes': r.below(4), 'shapes': [sh]}}
+            hist.maybe_attach(r, init, 0.5)
         else:
             init = synth.synth_init(r.choice(synth.VERSIONS), r.choice(types), r.below(1 << 20), k=3)
         ops = GRAPH_OPS if 'synth' not in init else GRAPH_OPS_SYNTH
